@@ -74,6 +74,13 @@ FoldStatus(line, d, r, acc) ==
   ELSE IF ~OkPair(line, r, d) THEN FoldStatus(line, d, r + 1, acc)
   ELSE FoldStatus(line, d, r + 1, StatusAnd(acc, PDen(line, r, d).file))
 
+RECURSIVE SumFailing(_, _, _)
+SumFailing(line, d, rs) ==
+  IF rs = {} THEN 0
+  ELSE LET r == CHOOSE x \in rs : TRUE
+           rr == PDen(line, r, d).rules IN
+       Cardinality({j \in 1 .. Len(rr) : rr[j][2] = "FAIL"}) + SumFailing(line, d, rs \ {r})
+
 PerDataOk(line, shown) ==
   /\ {shown[i].d : i \in 1 .. Len(shown)} = {d \in 1 .. ND(line) : line.data[d].load = "ok"}
   /\ \A i \in 1 .. Len(shown) :
@@ -83,6 +90,8 @@ PerDataOk(line, shown) ==
        /\ SetOf(shown[i].pass) = UNION {NamesWith(PDen(line, r, d), "PASS") : r \in rs}
        /\ SetOf(shown[i].skip) = UNION {NamesWith(PDen(line, r, d), "SKIP") : r \in rs}
        /\ SetOf(shown[i].fail) = UNION {NamesWith(PDen(line, r, d), "FAIL") : r \in rs}
+       \* one not_compliant entry per failing rule of every rules file (rules files may share names)
+       /\ ("nfail" \in DOMAIN shown[i]) => shown[i].nfail = SumFailing(line, d, rs)
 
 \* per (rules file, data file) views.  `rules` may be absent (junit shows only the file status);
 \* a view restricted by --show-summary shows only some statuses (line.mode.shows)
